@@ -13,9 +13,10 @@ import (
 )
 
 type Prelude struct {
-	Name   string
-	Types  []string
-	Items  []PreludeItem
+	Name     string
+	Theories []string
+	Types    []string
+	Items    []PreludeItem
 }
 
 type PreludeItem struct {
@@ -143,6 +144,9 @@ func LoadPrelude(name string) (*Prelude, error) {
 		if strings.HasPrefix(l, ";; type ") {
 			p.Types = append(p.Types, strings.TrimSpace(l[8:]))
 		}
+		if strings.HasPrefix(l, ";; theory ") {
+			p.Theories = append(p.Theories, strings.TrimSpace(l[10:]))
+		}
 	}
 	for _, sx := range splitSexprs(string(src)) {
 		toks := sexprTokens(sx)
@@ -223,6 +227,13 @@ func (ex *Exec) usePrelude(name string) error {
 		if _, isI := t.Underlying().(*types.Interface); !isI {
 			if _, isS := t.Underlying().(*types.Struct); isS {
 				ex.U.boxName(t)
+			}
+		}
+	}
+	for _, th := range p.Theories {
+		if th == "rules" {
+			if err := ex.ruleTheory(); err != nil {
+				return err
 			}
 		}
 	}
@@ -422,7 +433,11 @@ func (ex *Exec) Run() {
 			ex.fact(t)
 		}
 	}
+	// preconditions of interface contracts are NOT assumed for the body: they are antecedents of the interface's own
+	// postconditions only (the implementation's own contract must hold under its own preconditions alone)
+	ifaceReq := map[*Contract]Term{}
 	for _, ic := range ex.ifaceContractsFor() {
+		var reqs []Term
 		for _, cl := range ic.Of("requires") {
 			env := &SpecEnv{st: ex.st, old: ex.entry, names: ex.ifaceNames(nil), pkg: fi.Pkg.Types}
 			t, err := ex.specTerm(cl.Expr, env)
@@ -430,8 +445,9 @@ func (ex *Exec) Run() {
 				ex.contractError(cl, err)
 				continue
 			}
-			ex.fact(t)
+			reqs = append(reqs, t)
 		}
+		ifaceReq[ic] = And(reqs...)
 	}
 	nReq := len(ex.facts)
 	// cover: the entry state under the preconditions must be satisfiable
@@ -501,7 +517,7 @@ func (ex *Exec) Run() {
 			if id == "" {
 				id = fmt.Sprintf("e%d", k+1)
 			}
-			ex.assertAt(final, fmt.Sprintf("post:%s#%s.%s", fi.Name, ic.Func, id), "post", ex.clauseTagsOf(cl, ic), t, cl.Text, ex.P.pos(fi.Body()))
+			ex.assertAt(final, fmt.Sprintf("post:%s#%s.%s", fi.Name, ic.Func, id), "post", ex.clauseTagsOf(cl, ic), Implies(ifaceReq[ic], t), cl.Text, ex.P.pos(fi.Body()))
 		}
 	}
 	// canary: false must not be provable at the exit
